@@ -599,8 +599,8 @@ Proof. split; [intros c; split; [reflexivity|cbn; discriminate]|intros c cn; cbn
 
 (** ---- pinned behaviours, refuted by computation ---- *)
 Definition demo_chars : list (cid * charac) :=
-  [((2, 9), mkChar FBool true true true (Some (VBool false)) BNone BNone);
-   ((4, 13), mkChar FString true true false (Some (VStr [67;65;78;65;82;89] 0 0 false)) BNone BNone)].
+  [((2, 9), mkChar FBool true true true (Some (VBool false)) BNone BNone false);
+   ((4, 13), mkChar FString true true false (Some (VStr [67;65;78;65;82;89] 0 0 false)) BNone BNone false)].
 
 Lemma pinned_plaintext_served :
   snd (run (mkKnobs true true false true true true) (empty_world demo_chars) [OConnect 1; OReq 1 TPlain EAccessories])
@@ -651,7 +651,7 @@ Lemma hap_nonvacuous :
               OReq 1 TPlain (EPairSetup PSStart); OReq 1 TPlain (EPairSetup (PSVerify AValid PRight));
               OReq 1 TPlain (EPairSetup (PSKeyExch KSession (IGenuine [99] 7) false));
               OReq 1 TPlain (EPairVerify (PVStart true)); OReq 1 TPlain (EPairVerify (PVFinish true false true [99] SGenuine));
-              OReq 1 TSession (ECharsPut [((2, 9), None, Some true)]);
+              OReq 1 TSession (ECharsPut [((2, 9), None, Some (EvBool true))]);
               OConnect 2; OReq 2 TPlain (ECharsGet [(2, 9)] true);
               OLocalSet (2, 9) (VBool true);
               OReq 1 TSession (ECharsGet [(2, 9); (7, 7)] true)] in
